@@ -33,6 +33,7 @@ from pycel.excelutil import (
 )
 from pycel.lib.function_helpers import load_functions
 from pycel.lib.function_info import func_status_msg
+from pycel import _verif  # noqa: I100, I202
 
 
 ADDR_FUNCS_NAMES = '_R_', '_C_', '_REF_'
@@ -896,6 +897,9 @@ class ExcelFormula:
             name_space['_R_'] = evaluate_range
             name_space['_REF_'] = AddressRange.create
             name_space['pi'] = math.pi
+            if _verif.ENABLED:
+                name_space['_C_'] = _verif.wrap_read('cell', evaluate, excel_formula)
+                name_space['_R_'] = _verif.wrap_read('range', evaluate_range, excel_formula)
 
             # function to fixup the operands
             name_space['excel_operator_operand_fixup'] = \
@@ -927,19 +931,32 @@ class ExcelFormula:
                         msg_fmt.format(f.upper()) +
                         func_status_msg(f)[1] for f in sorted(missing))
 
+            if _verif.ENABLED:
+                _verif.emit('eval_enter', formula=excel_formula, cse=cse_array_address)
             try:
                 with in_array_formula_context(cse_array_address):
+                    if _verif.ENABLED:
+                        _verif.emit('eval_inside', formula=excel_formula, cse=cse_array_address)
                     ret_val = in_array_formula_context.fit_to_range(
                         excel_formula.compiled_lambda())
 
             except NameError:
+                if _verif.ENABLED:
+                    _verif.emit('eval_exit', formula=excel_formula, ok=False,
+                                pending=len(error_messages))
                 error_logger('error', excel_formula.python_code,
                              msg=excel_formula.msg, exc=UnknownFunction)
 
             except RecursionError as exc:
+                if _verif.ENABLED:
+                    _verif.emit('eval_exit', formula=excel_formula, ok=False,
+                                pending=len(error_messages))
                 raise RecursionError('Do you need to use cycles=True ?') from exc
 
             except Exception:
+                if _verif.ENABLED:
+                    _verif.emit('eval_exit', formula=excel_formula, ok=False,
+                                pending=len(error_messages))
                 address = f"{excel_formula.cell.address}: " if excel_formula.cell else ""
                 error_logger('error', f"{address}{excel_formula.python_code}",
                              exc=FormulaEvalError)
@@ -948,6 +965,9 @@ class ExcelFormula:
                 level = 'warning' if ret_val in ERROR_CODES else 'info'
                 error_logger(level, excel_formula.python_code)
 
+            if _verif.ENABLED:
+                _verif.emit('eval_exit', formula=excel_formula, ok=True,
+                            pending=len(error_messages))
             return ret_val if ret_val not in (None, EMPTY) else 0
 
         return eval_func
